@@ -142,6 +142,22 @@ def run(ctx):
         tlc_failed += nf
         merge(total, s)
         per_universe[name] = {"cases": s["cases"], "judged": s["cases"] - s["out_of_scope"]}
+    # the pipeline's own derivation: ContextForLanguage(language passes + final passes) must return builders that are
+    # the derivation of the schemas it returns
+    r = ctx.run_tlc("BuildersDeepMC", "BuildersDeepMC.cfg", workers=4, timeout=600, constants={"Mode": '"pipeline"'})
+    tlcs.append(r)
+    given = os.path.join(ctx.scratch, "c16-given.ndjson")
+    ps = json.loads(ctx.run_worker(["c16-pipeline", "-in", r["out"], "-out", given]))
+    if ps["written"] == 0 or ps["written"] + ps["rejected"] != r["distinct"]:
+        raise core.Inconclusive("pipeline universe: %s for %d TLC states" % (ps, r["distinct"]))
+    r2 = ctx.run_tlc("BuildersGivenMC", "BuildersGivenMC.cfg", workers=1, timeout=900, files={"given.ndjson": given})
+    tlcs.append(r2)
+    s, nf = judge(ctx, r2["out"], cov)
+    tlc_failed += nf
+    merge(total, s)
+    per_universe["pipeline"] = {"cases": ps["cases"], "judged": s["cases"], "rejected_by_pipeline": ps["rejected"]}
+    for k, v in ps["observations"].items():
+        total["observations_for_other_properties"][k] = total["observations_for_other_properties"].get(k, 0) + v
     if not quick:
         r = ctx.run_tlc("BuildersDeepMC", "BuildersDeepMC.cfg", workers=1, timeout=600, constants={"Mode": '"cycles"'})
         tlcs.append(r)
@@ -171,6 +187,8 @@ def run(ctx):
                 "field kind or an ordered pair of two of 28 field kinds x 6 surroundings (plain; alias chains whose second hop crosses into a "
                 "loaded second package next to same-named objects of another kind; aliases of structs / alias chains / aliases of enums and "
                 "constants declared before their targets; non-struct objects; second package not loaded; alias of an unloaded object)%s. "
+                "Universe 'pipeline': 2 schema sets x 7 lists of final passes (prefix_objects_names, retype_field, omit, rename_object, omit_fields) x 5 "
+                "languages through the real codegen.Pipeline.ContextForLanguage: the builders it returns against the schemas it returns. "
                 "Non-trivial = judged (schema sets with a dangling object-level alias make FromAST panic and are out of scope: C05 guarantees "
                 "resolvable references)" % (
                     "" if quick else "; thorough adds 'chains' (reference chains of 1..4 hops over three packages, third loaded or not, hop names "
